@@ -43,7 +43,7 @@ func perCallThreads() []string {
 func resScenario(p resParams) func() {
 	return func() {
 		win := 4
-		if p.ending == "send-fails" {
+		if p.ending == "send-fails" || p.ending == "cancel-while-queued" {
 			win = 1 // a non-reading server blocks the second unread write
 		}
 		w := world.New(world.Opts{N: 2, Window: win, SendBuffer: p.buf})
@@ -86,7 +86,7 @@ func resScenario(p resParams) func() {
 		key := classOf(p.kind) + "/" + p.ending
 		var base []int
 		for round := 1; round <= p.rounds; round++ {
-			if p.ending == "send-fails" {
+			if p.ending == "send-fails" || p.ending == "cancel-while-queued" {
 				// node 2: one message in the (never releasing) handler, one filling the window;
 				// the write of the call under test then blocks until the stream dies
 				for i := 0; i < 2; i++ {
@@ -117,9 +117,22 @@ func resScenario(p resParams) func() {
 					inv.Quorum = p.ending == "early-quorum"
 				}
 			}
+			if p.ending == "pre-cancelled" {
+				// the context has ended before the call: the request may still be handed to the sender
+				// (select picks at random), which then refuses it
+				c.Cancel(context.Canceled)
+			}
 			w.Start(c)
 			mc.Quiesce()
 			switch p.ending {
+			case "cancel-while-queued":
+				// the request waits in the send buffer / at the hand-off behind the blocked sender when
+				// its context ends; the sender gets to it only after the stream has been re-created
+				c.Cancel(context.Canceled)
+				mc.Quiesce()
+				w.FW.Crash(world.Addr(2))
+				mc.Quiesce()
+				w.FW.Restart(world.Addr(2))
 			case "early-quorum":
 				w.Open(fmt.Sprintf("n2t%d", c.Tok))
 			case "cancel-then-answer":
@@ -183,7 +196,7 @@ func resInstances(tier string) []Instance {
 	if thorough(tier) {
 		kinds = append(kinds, k{"QuorumCallCombo", false}, k{"QuorumCallAsyncPerNodeArg", false}, k{"CorrectableStreamCombo", false}, k{"MulticastPerNodeArg", false})
 	}
-	endings := []string{"early-quorum", "exhaustion", "cancel-then-answer", "deadline-silent", "crash", "handler-error", "stream-end", "send-fails"}
+	endings := []string{"early-quorum", "exhaustion", "cancel-then-answer", "deadline-silent", "crash", "handler-error", "stream-end", "send-fails", "pre-cancelled", "cancel-while-queued"}
 	for _, kd := range kinds {
 		for _, e := range endings {
 			if e == "stream-end" && !world.IsStream(kd.kind) {
@@ -192,8 +205,11 @@ func resInstances(tier string) []Instance {
 			if world.IsOneWay(kd.kind) && (e == "exhaustion" || e == "handler-error") {
 				continue
 			}
+			if e == "cancel-while-queued" && kd.kind == "Correctable" && !thorough(tier) {
+				continue
+			}
 			for _, buf := range []uint{0, 1} {
-				if buf == 1 && !thorough(tier) && !world.IsOneWay(kd.kind) {
+				if buf == 1 && !thorough(tier) && !world.IsOneWay(kd.kind) && e != "cancel-while-queued" {
 					continue
 				}
 				bound := 1
@@ -210,7 +226,7 @@ func resInstances(tier string) []Instance {
 
 func init() {
 	register(&Check{ID: "C18",
-		Rule: "9 call variants (13 thorough) x way of ending {quorum before all replies then the straggler answers, exhaustion, cancel then the nodes answer, deadline with a node that stays silent, node crash + restart, handler error, stream end, the write itself failing (stream dies while the request is blocked in SendMsg on a full window)} x send buffer {0,1}, each call repeated twice on the same manager; after each round (back-off timers fired) the oracle reads the response-router count of every node through an accessor and the live per-call goroutines from the scheduler: zero once every targeted node has answered or its connection failed (one router per round only for a node that never answers), no growth between rounds; all schedules within the deviation bound; an outcome is the instance",
+		Rule: "9 call variants (13 thorough) x way of ending {quorum before all replies then the straggler answers, exhaustion, cancel then the nodes answer, deadline with a node that stays silent, node crash + restart, handler error, stream end, the write itself failing (stream dies while the request is blocked in SendMsg on a full window), context already ended before the call, context ending while the request waits in the send buffer behind a blocked sender} x send buffer {0,1}, each call repeated twice on the same manager; after each round (back-off timers fired) the oracle reads the response-router count of every node through an accessor and the live per-call goroutines from the scheduler: zero once every targeted node has answered or its connection failed (one router per round only for a node that never answers), no growth between rounds; all schedules within the deviation bound; an outcome is the instance",
 		Gen:  resInstances,
 		Assumptions: []string{"router counts are read through an accessor added by overlay; goroutines are identified by their spawn site"},
 	})
